@@ -441,7 +441,7 @@ static void netStructureProbe(Rng &rng, CaseResult &r) {
     weights.push_back(rng.chance(0.5) ? 1.0f : (float)rng.unif(0.1, 4.0));
   }
   int pins = (int)cells.size();
-  int kind = (int)rng.range(0, 13);
+  int kind = (int)rng.range(0, 16);
   std::string what;
   int interior = nets >= 2 ? (int)rng.range(1, nets - 1) : -1;  // index of an interior limit
   switch (kind) {
@@ -462,7 +462,10 @@ static void netStructureProbe(Rng &rng, CaseResult &r) {
     case 10: if (pins > 0) { yo.pop_back(); what = "y offsets shorter than cells"; } else { yo.push_back(0); what = "y offsets longer than cells"; } break;
     case 11: if (pins > 0) { cells[rng.range(0, pins - 1)] = (int)rng.pick(std::vector<int>{-1, n, n + 7, INT_MAX, INT_MIN}); what = "pin names a cell that does not exist"; } else { cells.push_back(0); what = "cells longer than the last limit"; } break;
     case 12: cells.push_back(0); xo.push_back(0); yo.push_back(0); what = "one pin more than the last limit"; break;
-    default: limits.push_back(pins - 1 >= 0 ? pins - 1 : 3); what = "trailing limit below the pin count"; break;
+    case 13: limits.push_back(pins - 1 >= 0 ? pins - 1 : 3); what = "trailing limit below the pin count"; break;
+    case 14: { int k = (int)rng.range(1, 3); for (int j = 0; j < k; ++j) { xo.push_back(0); yo.push_back(0); } what = "both offset vectors longer than cells by the same amount"; break; }
+    case 15: if (pins > 0) { int k = (int)rng.range(1, pins); xo.resize(pins - k); yo.resize(pins - k); what = "both offset vectors shorter than cells by the same amount"; } else { xo.push_back(1); yo.push_back(1); what = "both offset vectors longer than cells by the same amount"; } break;
+    default: cells.push_back(0); limits.back() += 1; what = "a pin added to limits and cells but to neither offset vector"; break;
   }
   limits.shrink_to_fit(); cells.shrink_to_fit(); xo.shrink_to_fit(); yo.shrink_to_fit(); weights.shrink_to_fit();
   if (r.needSample()) r.sample = vf::J::obj().kv("probe", "corrupted net structure").kv("defect", what).kraw("limits", vf::jarr(limits)).kraw("cells", vf::jarr(cells)).kv("x_offsets", (int)xo.size()).kv("y_offsets", (int)yo.size()).kv("weights", (int)weights.size()).kv("circuit_cells", n).str();
@@ -483,9 +486,16 @@ static void netStructureProbe(Rng &rng, CaseResult &r) {
     r.count("refused_at_the_setter");
   } else {
     r.count("accepted_by_the_setter");
+    // accepted: the very next operation, whichever it is, must raise the error (and must not run into undefined behaviour)
     bool threw = false;
-    try { c.check(); (void)c.hpwl(); } catch (const std::exception &) { threw = true; } catch (...) { r.fail("C19:non-std-exception", what); threw = true; }
-    if (!threw) r.fail("C19:malformed-net-never-refused", "setNets accepted a net structure with " + what + " and check()/hpwl() did not raise an error either");
+    int follow = (int)rng.range(0, 4);
+    static const char *fn[5] = {"check", "hpwl", "legalize", "placeGlobal", "report"};
+    ColoquinteParameters p2(2);
+    p2.global.maxNbSteps = 2;
+    try {
+      if (follow == 0) c.check(); else if (follow == 1) (void)c.hpwl(); else if (follow == 2) c.legalize(p2); else if (follow == 3) c.placeGlobal(p2); else (void)c.report();
+    } catch (const std::exception &) { threw = true; } catch (...) { r.fail("C19:non-std-exception", what); threw = true; }
+    if (!threw) r.fail("C19:malformed-net-never-refused", "setNets accepted a net structure with " + what + " and " + fn[follow] + " did not raise an error either");
   }
   r.nontrivial = true;
   r.sig = what + ":n" + std::to_string(std::min(nets, 4));
